@@ -56,4 +56,18 @@ CONFIG = {
         "quick": {"checks": 600, "shards": 16},
         "thorough": {"checks": 5000, "shards": 16, "timeout": 7200},
     },
+    "C02": {
+        "rule": "one rapid property per registry entry: admissible configuration (as C01), input length n uniform in [0, 2w+3] (w = declared idle period; "
+                "10% of draws up to 3w+30), equal-length inputs. Oracle: every output has exactly max(0, n-w) values; w equals the input position at which "
+                "the doc-comment reference yields its first value; for window-type indicators no change of a bar later than position k+w changes output k "
+                "and output k reacts to a change of bar k+w whenever the reference does. Thorough additionally enumerates every configuration with all "
+                "periods <= 4 and every n <= 2w+3 for the length law. Non-trivial: n <= w+2 or a multi-output indicator. Distinct = (indicator, configuration, n).",
+        "technique": "property-based testing (rapid) of the length law and dependence frontier; exhaustive enumeration of small configurations in thorough",
+        "level_text": "The number of values on every output is compared with n - IdlePeriod() for generated configurations and lengths concentrated around the warm-up, the declared idle period is cross-checked against the position of the reference formula's first value, and a perturbation probe checks which input position each output reacts to. Thorough sweeps all periods <= 4 x all n <= 2w+3 exhaustively.",
+        "level_note": "Trusts the registry's transcription of which IdlePeriod belongs to which configuration; Apo, Aroon, Bop, TypicalPrice have no IdlePeriod method and use the warm-up their formula implies. Sensitivity probes are skipped for indicators with a recorded formula defect.",
+        "assumptions": ["multi-input indicators are fed equal lengths (unequal lengths are C03's)"],
+        "gomaxprocs": [1],
+        "quick": {"checks": 300, "shards": 16},
+        "thorough": {"checks": 4000, "shards": 16, "timeout": 7200},
+    },
 }
